@@ -677,6 +677,7 @@ fn run_api(c: &Case, sandbox_root: &Path, o: &mut String) {
                 std::fs::create_dir_all(ctx.sandbox.join(unhex_str(&l[1]))).unwrap();
             }
             "define" => parse_define(l, &mut ctx.defines),
+            "definealias" => parse_define_alias(l, &mut ctx.defines),
             "cleardefines" => ctx.defines.clear(),
             "incdir" => ctx.incdirs.push(PathBuf::from(unhex_str(&l[1]))),
             "clearincdirs" => ctx.incdirs.clear(),
